@@ -117,7 +117,7 @@ impl Prop for C07 {
         ]
     }
     fn cases(tier: Tier) -> u32 {
-        tier.pick(4_000, 100_000)
+        tier.pick(4_000, 400_000)
     }
     fn strategy(tier: Tier) -> BoxedStrategy<Case> {
         let fc = prop_oneof![
